@@ -8,6 +8,7 @@ input_bit_stream.rs, output_bit_stream.rs}
 import FontVerif.Model.SparseBitSet
 import FontVerif.Lemmas.SbsStream
 import FontVerif.Lemmas.SbsTotal
+import FontVerif.Lemmas.SbsSpecMem
 set_option linter.unusedVariables false
 namespace FontVerif.C14Codec
 open FontVerif FontVerif.SparseBitSet
@@ -51,5 +52,89 @@ example : decode [0x0e, 0x21, 0x11, 0x01, 0x04, 0x02] 0 U32_MAX = .error := by d
 /-- trailing bytes are returned -/
 example : decode [0x0e, 0x21, 0x11, 0x01, 0x04, 0x02, 0x08, 0xaa, 0xbb] 0 U32_MAX
     = .ok [(2, 2), (33, 33), (323, 323)] [0xaa, 0xbb] := by decide
+
+/-! ## 2. the queue decoder equals the specification's layer-wise decoder -/
+
+/-- For every byte string whose header height is within `max_height` of its branch factor, and
+every bias and maximum:
+* if `from_sparse_bit_set_bounded` returns `Ok((set, rest))`, the specification's decoding
+  algorithm (`specDecode`, layer by layer, no bias/maximum) succeeds with the SAME unread
+  remainder, and the members inserted are exactly the specification's members shifted by the
+  bias and cut at `min(max_value, u32::MAX)` (`SpecMem`);
+* it returns `Err` exactly when the specification's algorithm fails (stream too short);
+* hence whenever the specification's algorithm succeeds, so does the decoder.
+The early `break 'outer` in the leaf loop followed by `skip_nodes(queue.len())` is covered: it
+is sound because the starts of the nodes of one layer ascend and are at least one node size
+apart (`SepFrom`, preserved from layer to layer because a node has only `BF` child bits), so
+everything still queued lies above the first out-of-range value.  `hbytes` only says that the
+model's `Nat`s are bytes. -/
+theorem decode_eq_spec (data : List Nat) (bias maxValue : Nat) (hbytes : ∀ b ∈ data, b < 256)
+    (hh : ∀ b0 tl, data = b0 :: tl → b0 / 4 % 32 ≤ maxHeight (bfOfBits b0)) :
+    (∀ ins rest, decode data bias maxValue = .ok ins rest →
+      ∃ ivs, specDecode data = some (ivs, rest) ∧
+        ∀ x, (∃ r ∈ ins, r.1 ≤ x ∧ x ≤ r.2) ↔ SpecMem ivs bias maxValue x) ∧
+    (decode data bias maxValue = .error ↔ specDecode data = none) ∧
+    (∀ ivs rest, specDecode data = some (ivs, rest) →
+      ∃ ins, decode data bias maxValue = .ok ins rest) := by
+  cases data with
+  | nil => simp [decode, specDecode]
+  | cons b0 tl =>
+    have hmax := hh b0 tl rfl
+    by_cases h0 : b0 / 4 % 32 = 0
+    · have hd : decode (b0 :: tl) bias maxValue = .ok [] tl := by
+        simp only [decode]; rw [if_neg (by omega), if_pos h0]; rfl
+      have hs : specDecode (b0 :: tl) = some ([], tl) := by
+        simp only [specDecode]; rw [if_pos h0]; rfl
+      rw [hd, hs]
+      refine ⟨?_, by simp, ?_⟩
+      · intro ins rest h
+        simp at h
+        obtain ⟨rfl, rfl⟩ := h
+        exact ⟨[], rfl, fun x => by simp [SpecMem]⟩
+      · intro ivs rest h
+        simp at h
+        exact ⟨[], by rw [h.2]⟩
+    · have L := decode_layers b0 tl bias maxValue hbytes hmax h0
+      have hs : specDecode (b0 :: tl) =
+          match specLayers (bfOfBits b0) (b0 / 4 % 32) (b0 :: tl) (b0 / 4 % 32) 1 [0]
+              BitIn.start with
+          | none => none
+          | some (ivs, st) => some (ivs, (b0 :: tl).drop (bytesConsumed st)) := by
+        simp only [specDecode]; rw [if_neg h0]
+        generalize specLayers (bfOfBits b0) (b0 / 4 % 32) (b0 :: tl) (b0 / 4 % 32) 1 [0]
+          BitIn.start = o
+        cases o with
+        | none => rfl
+        | some r => cases r; rfl
+      rw [hs]
+      cases hl : specLayers (bfOfBits b0) (b0 / 4 % 32) (b0 :: tl) (b0 / 4 % 32) 1 [0]
+          BitIn.start with
+      | none =>
+        rw [hl] at L
+        simp only [] at L
+        rw [L]
+        simp
+      | some r =>
+        obtain ⟨ivs, st2⟩ := r
+        rw [hl] at L
+        obtain ⟨ins, hdec, hmem⟩ := L
+        rw [hdec]
+        refine ⟨?_, by simp, ?_⟩
+        · intro ins' rest h
+          simp at h
+          obtain ⟨rfl, rfl⟩ := h
+          exact ⟨ivs, rfl, hmem⟩
+        · intro ivs' rest h
+          simp at h
+          exact ⟨ins, by rw [h.2]⟩
+
+/-- early break: bias pushes the second leaf value over the maximum; the rest of the leaf layer
+is skipped, and the remainder is still the specification's remainder -/
+example : decode [0x0e, 0x21, 0x11, 0x01, 0x04, 0x02, 0x08, 0x77] 10 50
+    = .ok [(12, 12), (43, 43)] [0x77] := by decide
+example : specDecode [0x0e, 0x21, 0x11, 0x01, 0x04, 0x02, 0x08, 0x77]
+    = some ([(2, 2), (33, 33), (323, 323)], [0x77]) := by decide
+/-- a filled node (zero node) below the root -/
+example : decode [0x09, 0x05, 0x00] 0 U32_MAX = .ok [(0, 3), (8, 11)] [] := by decide
 
 end FontVerif.C14Codec
